@@ -89,8 +89,12 @@ Proof.
   rewrite fits_is_wire_type_fits in Hfit. unfold fits in Hfit. rewrite Ht in Hfit. cbn [base_wire_type] in Hfit.
   assert (Pw : pwt p = 2).
   { destruct (Z.eqb_spec (pwt p) 2) as [E|E]; [exact E|]. cbn in Hfit. discriminate. }
-  unfold record_value, post_len in H. rewrite Ht, Pw, Hh, Hw in H. vm_compute in H.
-  fold (parse_new fuel' sc c' (pbytes p)) in H.
+  unfold record_value, post_len in H. rewrite Ht, Pw, Hh, Hw in H.
+  change (tmem TMessage PACKED_TYPES) with false in H.
+  change (2 =? WIRE_LEN_DELIM) with true in H. change (2 =? WIRE_VARINT) with false in H.
+  change (2 =? WIRE_FIXED_32) with false in H. change (2 =? WIRE_FIXED_64) with false in H.
+  change (ptype_eqb TMessage TMap) with false in H. change (ptype_eqb TMessage TString) with false in H.
+  change (ptype_eqb TMessage TMessage) with true in H. cbn [andb orb] in H. cbn beta iota in H.
   destruct (parse_new fuel' sc c' (pbytes p)) as [m|]; [|discriminate].
   injection H as <-. destruct m as [c r s u g]. eexists. split; reflexivity.
 Qed.
@@ -145,7 +149,7 @@ Proof.
   { intros g G. destruct Hg as (_ & Hc & _). rewrite Hc. eapply wf_group_lt; eassumption. }
   destruct (store_effect sc o i f value o' Bi Hg Hgl H) as (vs & E & Hvs).
   exists vs. split; [exact E|].
-  destruct Hvs as [(l & t & -> & Hl)|[(d & -> & Hm)|->]].
+  destruct Hvs as [(l & t & -> & Hl)|[(d & -> & Hm)| ->]].
   - split; [repeat split; try discriminate; eauto|].
     intros _ _ (c' & Hc'). rewrite Hc' in Hl. discriminate.
   - split; [repeat split; try discriminate; intros; discriminate|].
@@ -158,7 +162,9 @@ Proof.
 Qed.
 
 Lemma proper_fits h v : proper_value h v -> fits_hint h v.
-Proof. intros (A & B & C). destruct v; cbn; auto. congruence. Qed.
+Proof.
+  intros (A & B & C). destruct v; cbn; auto; try congruence. apply (C l eq_refl).
+Qed.
 
 Lemma effect_good sc o o' i f vs :
   good sc o -> nth_error (fields_of sc o) i = Some f -> effect sc o o' i f vs ->
